@@ -42,6 +42,13 @@ type pAction struct {
 	M      string     `json:"m,omitempty"`
 	Claim  []presKV   `json:"claim,omitempty"`
 	Whole  bool       `json:"whole,omitempty"`
+	// RTamper steps (range_test.go): the claim in the model's order, the right end of the proven range, the tampered
+	// node as (path "first" | "last", 1-based index in the model's Prove of that boundary), the verifier's case
+	Last []int    `json:"last,omitempty"`
+	Cl   []presKV `json:"cl,omitempty"`
+	Path string   `json:"path,omitempty"`
+	Idx  int      `json:"idx,omitempty"`
+	Case string   `json:"case,omitempty"`
 }
 
 // firstSpec is the left boundary of a range claim: the model key K, or (J < H) a key that agrees with K
@@ -107,6 +114,13 @@ type pStep struct {
 	P      []presKV `json:"pres"`
 	Expect string   `json:"expect,omitempty"`
 	More   bool     `json:"more,omitempty"`
+	// Sweep / RTamper steps (range_test.go)
+	Claims []sweepClaim `json:"claims,omitempty"`
+	Fc     string       `json:"fc,omitempty"`
+	Lc     string       `json:"lc,omitempty"`
+	Holds  bool         `json:"holds,omitempty"`
+	Mv     string       `json:"mv,omitempty"`
+	Shape2 []pShape     `json:"shape2,omitempty"`
 }
 
 type proofInput struct {
@@ -777,6 +791,48 @@ func TestProofReplay(t *testing.T) {
 							report(si, "membership-proof:independent-verifier:"+impl, fmt.Sprintf("the real proof does not verify with the independent verifier (err %v)", rerr), want.String(), rv.String())
 						}
 					}
+				case "Sweep":
+					if v.Poseidon {
+						counts["range-skipped-poseidon"]++
+						continue
+					}
+					first, ok := v.realFirst(s.A.First)
+					if !ok {
+						counts["range-skipped-no-padding-bit"]++
+						continue
+					}
+					other := cache[fmt.Sprint(!s.A.Cached, presSig(s.P))]
+					if other == nil {
+						var err error
+						if other, err = buildTries(&v, s.P, !s.A.Cached); err != nil {
+							report(si, "proof-harness:build", "building the real tries failed: "+err.Error(), nil, nil)
+							continue
+						}
+						cache[fmt.Sprint(!s.A.Cached, presSig(s.P))] = other
+					}
+					hashed, plain := other, bt
+					if s.A.Cached {
+						hashed, plain = bt, other
+					}
+					counts["sweeps"]++
+					counts["sweep-first-"+s.Fc]++
+					counts["sweep-last-"+s.Lc]++
+					runSweep(&v, hashed, plain, s, first, counts, func(key, what string, exp, obs any) { report(si, key, what, exp, obs) })
+				case "RTamper":
+					if v.Poseidon {
+						counts["range-skipped-poseidon"]++
+						continue
+					}
+					rv, shapeErr, err := runRTamper(&v, in.MaxV, bt, s)
+					if err != nil {
+						report(si, "proof-harness:rtamper:"+s.A.Impl, err.Error(), nil, nil)
+						continue
+					}
+					if shapeErr != "" {
+						report(si, "membership-proof:proof-shape:"+s.A.Impl, "the real Prove collects a different node sequence than Proof.tla: "+shapeErr, s.Shape, nil)
+						continue
+					}
+					judgeRTamper(s, rv, counts, func(key, what string, exp, obs any) { report(si, key, what, exp, obs) })
 				case "Range":
 					if v.Poseidon {
 						counts["range-skipped-poseidon"]++
